@@ -222,6 +222,32 @@ func (c *EvalCtx) evalCall(x *SCall) (TV, error) {
 			return TV{}, fmt.Errorf("fresh() needs a pre-state")
 		}
 		return TV{Val: And(Val{app("<=", c.old.next.T, r.T), SBool}, Val{app("<", r.T, c.st.next.T), SBool}), Ty: boolT}, nil
+	case "mu":
+		// the mutex of a struct: address of its (first) sync.Mutex / sync.RWMutex field, whatever
+		// its name - so that contracts survive a change of the lock's type
+		v, err := c.eval(x.Args[0])
+		if err != nil {
+			return TV{}, err
+		}
+		if v.Ty == nil {
+			return TV{}, fmt.Errorf("mu() needs a pointer to a struct")
+		}
+		pt, ok := v.Ty.Underlying().(*types.Pointer)
+		if !ok {
+			return TV{}, fmt.Errorf("mu() needs a pointer to a struct")
+		}
+		stt, ok := pt.Elem().Underlying().(*types.Struct)
+		if !ok {
+			return TV{}, fmt.Errorf("mu() needs a pointer to a struct")
+		}
+		si := c.W().StructOf(pt.Elem())
+		for i := 0; i < stt.NumFields(); i++ {
+			if nt, ok := stt.Field(i).Type().(*types.Named); ok && nt.Obj().Pkg() != nil && nt.Obj().Pkg().Path() == "sync" &&
+				(nt.Obj().Name() == "Mutex" || nt.Obj().Name() == "RWMutex") {
+				return TV{Val: FieldLoc(v.Val, si.Fields[i].FID), Ty: types.NewPointer(stt.Field(i).Type())}, nil
+			}
+		}
+		return TV{}, fmt.Errorf("mu(): %s has no mutex field", pt.Elem())
 	case "allocated":
 		// the referenced object exists in this state (a type invariant of every stored reference)
 		r, err := c.evalCall(&SCall{Fun: &SIdent{"ref"}, Args: x.Args})
@@ -325,6 +351,21 @@ func (c *EvalCtx) evalCall(x *SCall) (TV, error) {
 			return TV{}, fmt.Errorf("strval() needs a byte slice")
 		}
 		return TV{Val: c.e.bytesToString(c.st, v.Val), Ty: types.Typ[types.String]}, nil
+	case "itercount":
+		// number of keys delivered so far by the map iterator of the enclosing range loop
+		if c.fr == nil {
+			return TV{}, fmt.Errorf("itercount() outside a function body")
+		}
+		var best Val
+		n := 0
+		for _, v := range c.st.iterN {
+			best = v
+			n++
+		}
+		if n != 1 {
+			return TV{}, fmt.Errorf("itercount(): %d map iterators are live here (need exactly one)", n)
+		}
+		return TV{Val: best, Ty: types.Typ[types.Int]}, nil
 	case "heap8":
 		_, h := c.e.scalarHeap(c.st, BVSort(8))
 		return TV{Val: h}, nil
